@@ -7,6 +7,7 @@ import (
 	"math/rand"
 	"os"
 	"runtime"
+	"strings"
 	"sync"
 	"testing"
 
@@ -182,6 +183,10 @@ func TestCheck(t *testing.T) {
 		run.Eval(1)
 		run.Add("sequences_"+k.Backend, 1)
 		if v := runCase(be, k, w.states, w.ops); v != nil {
+			if strings.HasPrefix(v.Sig, "inconclusive/") {
+				run.Inconclusive(v.What)
+				return
+			}
 			run.Violation(v.Sig, v.What, k)
 		}
 	}
